@@ -13,6 +13,8 @@ RULE = ("worlds where most types and copyable enums are singletons and most modu
         "distinct by case text")
 ASSUMPTIONS = ["the run-time behaviour of an accessor is covered through its emitted shape (executed only in the thorough tier)"]
 
+HARNESS_ENV = {'PXHARNESS_TEXT': '1'}
+
 def generate(rng, tier):
     n = 300 if tier == 'quick' else 5000
     o = gen.Opts(p_singleton=0.7, p_extern_val=0.8, p_extern_type=0.4, p_enum=0.4, p_flags=0.7, p_backend=0.0, p_impl=0.1,
@@ -35,7 +37,8 @@ def generate(rng, tier):
                 p, nd = rng.choice(ss)
                 c = replace_at(c, p, a_int('singleton', -rng.choice([1, 4096]))); c[1] += '-negs'
         out.append(c)
-    return out
+    from .. import o4exec
+    return out + o4exec.exec_worlds(rng, 10 if tier == 'quick' else 200, **dict(p_singleton=0.7, p_extern_val=0.8, p_enum=0.4, p_flags=0.8, p_impl=0.2))
 
 def judge(c, impl, model):
     cid = c[1]
@@ -108,3 +111,9 @@ def judge(c, impl, model):
         info['nontrivial'] = True
     count(info, 'accessors:%s' % ('0' if not n else '1' if n == 1 else '2-4' if n < 5 else '5+'))
     return fs, info
+
+def judge_all(cases, impl, model, tier):
+    # O4 execution: the worlds whose id starts with 'ex' are compiled for the host and their wrappers / accessors RUN
+    from .. import o4exec
+    fs, info = o4exec.judge_exec(ID, cases, impl, tier)
+    return fs, info, []
